@@ -16,6 +16,7 @@ import (
 	"sort"
 	"strconv"
 	"strings"
+	"syscall"
 	"time"
 
 	"verif/driver"
@@ -44,6 +45,7 @@ type Step struct {
 	Arg     int    `json:"arg,omitempty"`
 	Torn    bool   `json:"torn,omitempty"`
 	FromEnd bool   `json:"from_end,omitempty"` // crash/fserr: Arg counts back from the number of cache operations of the previous build
+	Sched   string `json:"sched,omitempty"`    // race: "aligned" forces the schedule that keeps the builders level on the package list
 	Target  string `json:"target,omitempty"`   // crash: die just before publishing the "manifest" or the "archive" of package Pkg; fserr: fail the "archive-write", "archive-close" or "manifest-write" of package Pkg
 }
 
@@ -101,7 +103,10 @@ func battery(clock string, embed, ext bool) *Scenario {
 		{K: "edit-src", Pkg: 1}, {K: "crash", Pkg: 1, Target: "manifest"}, b,
 		{K: "edit-c", Pkg: 2, Arg: 1}, {K: "crash", Pkg: 2, Target: "manifest"}, b, n, // archive without manifest of a package with link arguments
 		{K: "edit-src", Pkg: 3}, {K: "race", Arg: 0}, b, n, // two builders of the same sources on one cache: both compile and publish the same entries
+		{K: "edit-c", Pkg: 3}, {K: "race", Arg: 8, Sched: "aligned"}, b, n, // two builders at different optimisation levels: what one compiles must not end up in the other's program or under the other's key
 		{K: "edit-c", Pkg: 2, Arg: 0}, {K: "race", Arg: 1 | 4, Target: "archive-write"}, b, n, // two builders under different tag settings; one of them is killed half-way through an archive
+		{K: "edit-src", Pkg: 2}, b, {K: "powercut", Arg: 0}, b, n, // power fails after a build: what it published without syncing is there by name only
+		{K: "edit-c", Pkg: 2, Arg: 1}, {K: "edit-src", Pkg: 1}, b, {K: "powercut", Arg: 2}, b, n, // ... or half of it
 		{K: "tag"}, b,
 		{K: "edit-src-same", Pkg: 2}, {K: "crash", Pkg: 2, Target: "archive"}, b,
 		n,
@@ -133,6 +138,15 @@ func battery(clock string, embed, ext bool) *Scenario {
 }
 
 func (prop) Generate(rng *sim.Rng, tier string, runIndex int) driver.Scenario {
+	if f := os.Getenv("VERIF_C13_SCENARIO"); f != "" && runIndex == 0 {
+		// experiments: run index 0 is the scenario in this file (with -one 0: generating mode, fresh decisions)
+		if b, err := os.ReadFile(f); err == nil {
+			var sc Scenario
+			if json.Unmarshal(b, &sc) == nil {
+				return &sc
+			}
+		}
+	}
 	if runIndex < 4 {
 		return battery([]string{"normal", "coarse", "stall", "backwards"}[runIndex], useEmbed && runIndex == 0, runIndex%2 == 1)
 	}
@@ -242,6 +256,8 @@ func (prop) Generate(rng *sim.Rng, tier string, runIndex int) driver.Scenario {
 			st = Step{K: "opt", Arg: rng.Intn(3)}
 		case r == 11:
 			st = Step{K: "noop"}
+		case r == 12 && rng.Bool():
+			st = Step{K: "powercut", Arg: rng.Intn(3)}
 		case r == 12:
 			st = Step{K: "clear"}
 		case r == 15 && rng.Intn(3) == 0:
@@ -261,12 +277,12 @@ func (prop) Generate(rng *sim.Rng, tier string, runIndex int) driver.Scenario {
 			st = Step{K: "edit-src", Pkg: pi}
 		}
 		sc.Steps = append(sc.Steps, st)
-		if st.K != "noop" && st.K != "clear" && st.K != "crash" && st.K != "fserr" && st.K != "repro" {
+		if st.K != "noop" && st.K != "clear" && st.K != "crash" && st.K != "fserr" && st.K != "repro" && st.K != "powercut" {
 			// every edit is followed by a rebuild (possibly an interrupted one first)
 			targeted := false
 			if rng.Intn(5) == 0 {
 				// concurrent builders (2-3 processes, perhaps under another tag setting, perhaps one of them meeting a fault)
-				rs := Step{K: "race", Arg: rng.Intn(8)}
+				rs := Step{K: "race", Arg: rng.Intn(16)}
 				if rs.Arg&4 != 0 && rng.Bool() {
 					rs.Target = []string{"archive-write", "manifest-write", "archive", "manifest"}[rng.Intn(4)]
 				}
@@ -287,7 +303,7 @@ func (prop) Generate(rng *sim.Rng, tier string, runIndex int) driver.Scenario {
 			if targeted && rng.Bool() {
 				sc.Steps = append(sc.Steps, Step{K: "noop"})
 			}
-		} else if st.K == "crash" || st.K == "fserr" || st.K == "clear" {
+		} else if st.K == "crash" || st.K == "fserr" || st.K == "clear" || st.K == "powercut" {
 			sc.Steps = append(sc.Steps, Step{K: "build"})
 		}
 	}
@@ -323,6 +339,7 @@ type world struct {
 	clock int64 // simulated file-time clock (unix ns)
 	log   []string
 	keep  bool
+	lastDur []string // durability records of the most recent build
 }
 
 // modOf is the module of package i; pkgDir its directory.
@@ -676,6 +693,7 @@ type buildResult struct {
 	stdout   string // standard output: the "call <function>" lines of a traced program
 	buildLog string
 	ops      []string // cache operations performed (from the seam's log)
+	dur      []string // "sync <file>" / "rename <old> <new>" records of the cache code (for a simulated power cut)
 	hits     int
 }
 
@@ -723,7 +741,9 @@ func (w *world) build(crashAt int, fserr int, torn bool, match ...string) buildR
 	defer bcancel()
 	cmd := exec.CommandContext(bctx, llgoBin, args...)
 	cmd.Dir = w.dir
-	cmd.Env = append(w.baseEnv(w.cache), "VERIF_OPLOG="+oplog)
+	durlog := filepath.Join(w.dir, "durlog.txt")
+	os.Remove(durlog)
+	cmd.Env = append(w.baseEnv(w.cache), "VERIF_OPLOG="+oplog, "VERIF_DURLOG="+durlog)
 	if w.trace {
 		cmd.Env = append(cmd.Env, "LLGO_TRACE=1")
 	}
@@ -761,6 +781,10 @@ func (w *world) build(crashAt int, fserr int, torn bool, match ...string) buildR
 	if b, e := os.ReadFile(oplog); e == nil {
 		r.ops = strings.Split(strings.TrimSpace(string(b)), "\n")
 	}
+	if b, e := os.ReadFile(durlog); e == nil {
+		r.dur = strings.Split(strings.TrimSpace(string(b)), "\n")
+	}
+	w.lastDur = r.dur
 	r.hits = strings.Count(r.buildLog, "cache HIT") + strings.Count(r.buildLog, "(cached)")
 	if ee, ok := err.(*exec.ExitError); ok && ee.ExitCode() == 137 {
 		r.killed = true
@@ -1106,6 +1130,49 @@ func (prop) Run(scx driver.Scenario, ch *sim.Choices, keep bool) *driver.Result 
 			w.logf("step %d: cache cleared (back to the warm template)", si)
 		case "crash", "fserr":
 			pendingFault = st
+		case "powercut":
+			// The machine loses power after the most recent build: a cache file that got
+			// its final name without having been synced keeps the name but not (all of)
+			// its data.  Files the cache code synced before the rename are intact.
+			synced := map[string]bool{}
+			var victims []string
+			for _, l := range w.lastDur {
+				f := strings.Fields(l)
+				if len(f) == 2 && f[0] == "sync" {
+					synced[f[1]] = true
+				} else if len(f) == 3 && f[0] == "rename" && !synced[f[1]] && strings.HasPrefix(f[2], w.cache) {
+					if fi, err := os.Lstat(f[2]); err == nil && fi.Mode().IsRegular() {
+						victims = append(victims, f[2])
+					}
+				}
+			}
+			sort.Strings(victims)
+			res.Probes["power-cuts"]++
+			if len(victims) == 0 {
+				w.logf("step %d: power cut: every file the last build published had been synced (or it published nothing)", si)
+				break
+			}
+			if st.Arg%3 == 1 {
+				victims = victims[ch.Choose('z', len(victims)):][:1]
+			}
+			for _, v := range victims {
+				fi, err := os.Lstat(v)
+				if err != nil {
+					continue
+				}
+				if st2, ok := fi.Sys().(*syscall.Stat_t); ok && st2.Nlink > 1 {
+					continue // shared with the warm template: never written by this world's builds
+				}
+				n := int64(0)
+				if st.Arg%3 == 2 {
+					n = fi.Size() / 2
+				}
+				os.Truncate(v, n)
+				res.Faults["power-cut-unsynced-file-lost"]++
+				w.logf("step %d: power cut: %s had its name but was never synced: %d of %d bytes survive", si, shorten(v, w), n, fi.Size())
+			}
+			afterFault = true
+			lastEdit = "powercut"
 		case "race":
 			var rtags []string
 			viol, detail, rtags = w.race(si, st, ch, res, mix)
@@ -1361,10 +1428,10 @@ func (prop) Describe() driver.Description {
 		Assumptions: []string{
 			"byte-reproducibility of intermediate code is sampled, not simulated: a repro step runs two compiler processes on the same sources (fresh caches, different temporary directories) and compares every package's .ll byte for byte; the processes differ in Go's per-process map-iteration seed, which is outside any seam, so a difference is reported with the histories that showed it and is expected, not guaranteed, to recur on replay",
 			"of the environment variables in the cache key only LLGO_TRACE changes what a program does (every function announces itself); the optimisation level is observable through the C side files only (__OPTIMIZE__ / __OPTIMIZE_SIZE__: -O2, -O0 and -Oz are told apart, -O1/-O3/-Os are not generated); the debug variables do not change what a println program prints, so their staleness is not observable by this oracle",
-			"a build that fails after an injected crash is an observation, not a violation",
+			"power cut: after a build, every cache file that got its final name (rename) without the cache code having synced it may lose all or half of its data while keeping its name (what ext4/xfs/btrfs may do to a renamed, never synced file); synced files and files the build did not publish are intact; lost directory entries are not modelled",
 			"concurrent builders: a race step runs 2-3 llgo processes on one cache directory, parked at every cache operation and released one at a time by the run's PRNG; between two cache operations a process runs alone, so interleavings inside one cache operation (two writers inside one write system call) are not explored; edits while a build is running are not generated",
 		},
-		FaultKinds:  []string{"crash-during-build", "torn-write", "disk-error-during-build", "race-kill", "race-torn-write-kill", "race-disk-error"},
+		FaultKinds:  []string{"crash-during-build", "torn-write", "disk-error-during-build", "race-kill", "race-torn-write-kill", "race-disk-error", "power-cut-unsynced-file-lost"},
 		Workers:     8,
 		QuickBudget: 100, ThoroughBudget: 2400,
 		RunTimeout: 3600, // a history is a dozen real compiler runs
